@@ -92,7 +92,23 @@ int fegetround(void);
  *
  * @return the index of the most significant place, as an @c int
  */
-#define MSP(v) ((int) floor((v == 0.0) ? 0 : log10(fabs(v))))
+#define MSP(v) (exact_msp(v))
+
+/*
+ * floor(log10(fabs(v))), computed exactly.  log10() itself rounds up to an integer for arguments just below a power of
+ * ten, which made the result one too large there.  The decimal exponent is read from a correctly rounded rendering to 26
+ * significant digits instead: no double is closer to the power of ten above it than 2.6 parts in 10^19 (the double
+ * next below 1e153), so rounding to that many digits never carries into the next decade.
+ */
+static int exact_msp(double v) {
+    char msp_buf[48];
+    char *e;
+
+    if (v == 0.0) return 0;
+    sprintf(msp_buf, "%.25e", fabs(v));
+    e = strchr(msp_buf, 'e');
+    return ((e == NULL) ? 0 : atoi(e + 1));
+}
 
 /**
  * @brief Serializes a NUL-terminated Unicode string to the provided buffer.
